@@ -123,6 +123,10 @@ def gen_case(rng, tier, index):
             # another dataset, located where the hostile path points, is
             # opened between opening this one and using it
             "open_other": rng.random() < 0.4,
+            # the hostile shard file path sits in a shard record that names
+            # several files, next to a harmless one
+            "multi_file_infos": rng.choice([None, None, "first", "second",
+                                            "third"]),
             "seed": rng.getrandbits(32), "sched_seed": rng.getrandbits(48),
             "iface": rng.choice(["sync", "conc", "async", "rust", "tfdata"
                                  if rng.random() < 0.3 else "sync"])}
@@ -244,8 +248,22 @@ def run_case(case):
                 base = os.path.dirname(rel)
                 if field == "shard_file_path":
                     stored = text + "/evil" + eread.esess_ext(st["fmt"])
-                    doc["shard_files"][case["pick"] % len(doc["shard_files"])][
-                        "file_infos"][0]["file_path"] = stored
+                    rec = doc["shard_files"][case["pick"] %
+                                             len(doc["shard_files"])]
+                    mfi = case.get("multi_file_infos")
+                    if mfi:
+                        import copy as _copy
+                        benign = rec["file_infos"][0]
+                        hostile = _copy.deepcopy(benign)
+                        hostile["file_path"] = stored
+                        rec["file_infos"] = {
+                            "first": [hostile, benign],
+                            "second": [benign, hostile],
+                            "third": [benign, _copy.deepcopy(benign),
+                                      hostile]}[mfi]
+                        probes["hostile_path_among_several_file_infos"] += 1
+                    else:
+                        rec["file_infos"][0]["file_path"] = stored
                     src = a_shard
                 else:
                     stored = text + "/shards_list.json"
@@ -415,6 +433,8 @@ def shrink(case):
 
 def reach(agg):
     need = []
+    if not agg["probes"].get("hostile_path_among_several_file_infos"):
+        need.append("probe hostile_path_among_several_file_infos never hit")
     p = agg["probes"]
     for f in FIELDS:
         if not p.get("field_" + f):
